@@ -26,8 +26,8 @@ ASSUMPTIONS = [
     "_suppressAlreadyCalled, canceller present) of the real object plus the reference state; tokens are fresh "
     "and verified equal in that state, so they are dropped",
 ]
-MIN = {"quick": {"states": 3000, "nontrivial": 2000, "outcomes": 10},
-       "thorough": {"states": 3000, "nontrivial": 2000, "outcomes": 10}}
+MIN = {"quick": {"states": 12000, "nontrivial": 10000, "outcomes": 13, "transitions": 110000},
+       "thorough": {"states": 250000, "nontrivial": 240000, "outcomes": 13, "transitions": 3000000}}
 LEVEL_TEXT = ("every history within the bound is executed on real Deferreds and compared after each call with a "
               "reference state machine of the documented one-result / cancellation rules")
 LEVEL_NOTE = "raising cancellers only partly specified; no pauses; cancellers fire synchronously or not at all"
@@ -383,7 +383,6 @@ def invariant(st, hist):
 
 
 def canon(st):
-    from twisted.internet import defer
     rows = []
     for i, d in enumerate(st.d):
         M = st.m[i]
